@@ -96,6 +96,12 @@ def csv_cases(tier, seed=0):
             else:
                 cols.append({"name": nme, "dtype": "int", "data": [rnd.choice(INTS[:7]) for _ in range(nrows)], "mask": [False] * nrows})
         out.append({"kind": "csv_roundtrip", "columns": cols, "read": {}, "typed_read": True})
+    # every ordering of element types, with values that do not survive a cast to the other type
+    fcol = lambda n: {"name": n, "dtype": "float", "data": [hx(x) for x in (0.1, 1.7976931348623157e+308, -2.5, 5e-324)], "mask": [False] * 4}
+    icol = lambda n: {"name": n, "dtype": "int", "data": [3, -9999, 0, 123456], "mask": [False] * 4}
+    for order in (["i", "f"], ["f", "i"], ["i", "f", "i"], ["f", "f"], ["i", "i"]):
+        cols = [(icol if t == "i" else fcol)("C%d" % k) for k, t in enumerate(order)]
+        out.append({"kind": "csv_roundtrip", "columns": cols, "read": {}, "typed_read": True})
     return out
 
 
@@ -244,8 +250,18 @@ def nc_cases(tier, seed=0):
                         params["MissingValue"] = mv
                     out.append(dict(base, data=[hx(x) for x in data], mask=mask, params=params))
     out.append(dict(base, data=[hx(1.0)] * 4, mask=[False] * 4, params={}, field="Nope"))
+    # valid values next to the missing-value sentinel stay valid (exact comparison)
+    near = []
+    for mv, data in ((100000, [100000.5, 99999.75, 100000.0, 1e-09]), (0, [1e-09, -2.5e-310, 0.0, 5e-324]), (1.0, [1.000001, 0.9999999, 1.0, 2.0]),
+                     (-9999, [-9999.05, -9998.95, -9999.0, 3.0])):
+        for dtp in (None, "Float"):
+            params = {"MissingValue": mv}
+            if dtp:
+                params["DataType"] = dtp
+            near.append(dict(base, data=[hx(x) for x in data], mask=[False] * 4, params=params))
+    out = near + out
     if tier == "quick":
-        keep = out[:n] + rnd.sample(out[n:], 60)
+        keep = out[: n + len(near)] + rnd.sample(out[n + len(near):], 60)
         return keep
     return out
 
